@@ -95,6 +95,14 @@ Section K.
   (* Known_C05 *)
   Definition known_c05 (v : gval) : bool := negb (all_nodes (fun x => negb (node_known x)) v).
 
+  (* side conditions of C05_partial that are not deviation classes: no node's encoding is astronomically large (the
+     serializer's `expect` on the offset width cannot fail below 2^64 bytes), no file descriptors (their index depends
+     on the descriptors attached so far; covered by the correspondence only), signature values in parenthesised form
+     (what Signature::serialize writes) *)
+  Definition gsmall (v : gval) : bool := all_nodes (fun x => len (gvb e x) <? 2 ^ 60) v.
+  Definition node_plain (v : gval) : bool := match v with GFd _ => false | GSigv _ np => negb np | _ => true end.
+  Definition gplain (v : gval) : bool := all_nodes node_plain v.
+
   Definition in_class (p : gval -> bool) (v : gval) : bool := negb (all_nodes (fun x => negb (p x)) v).
   Definition class_c05 (v : gval) : bytes :=
     if in_class node_bool v then B "bool"
